@@ -53,12 +53,16 @@ void h_c11_collect_dependencies(void)
 void w_c11_visit_function(unsigned w, unsigned r, unsigned ch_in, unsigned dep_in, int nparams, int nframe, int f0, int f1, int f2, int f3,
                           int nloc, int l0, int l1, int l2, unsigned* ch_out, unsigned* dep_out, int* vw, int* vr);
 void w_c11_scope(unsigned declared_in_scope);
+void w_c11_globals(unsigned declared_globally);
 void h_c11_visit_function(void)
 {
-    unsigned w, r, ci, di, co, dO, scope; int np, nf, f[4], nl, l[3], vw, vr;
+    unsigned w, r, ci, di, co, dO, scope, glob; int np, nf, f[4], nl, l[3], vw, vr;
     /* the frame the function is declared in (global or template-local) declares an arbitrary set of the symbols */
     __CPROVER_assume(scope < 256);
     w_c11_scope(scope);
+    /* ... and so does the document's global frame */
+    __CPROVER_assume(glob < 256);
+    w_c11_globals(glob);
     __CPROVER_assume(w < 256 && r < 256 && ci < 256 && di < 256 && np >= 0 && np <= 3 && nf >= np && nf <= 4 && nl >= 0 && nl <= 3);
     for (int i = 0; i < 4; i++) __CPROVER_assume(f[i] >= 1 && f[i] < 8);
     for (int i = 0; i < 3; i++) __CPROVER_assume(l[i] >= 1 && l[i] < 8);
